@@ -66,12 +66,14 @@ func devMain(args []string) {
 	}
 	sort.Strings(keys)
 	var obs []*Oblig
+	var fcs []*FnCtx
 	for _, k := range keys {
 		c := e.specs.Funcs[k]
 		if c.Trusted || c.NoBody {
 			continue
 		}
 		fc := e.VerifyFunc(c)
+		fcs = append(fcs, fc)
 		obs = append(obs, fc.obligs...)
 	}
 	if *lemmas {
@@ -84,11 +86,14 @@ func devMain(args []string) {
 		for _, l := range e.specs.Lemmas {
 			if !l.Axiom && strings.Contains(l.Name, sub) {
 				fc := e.VerifyLemma(l, axioms)
+				fcs = append(fcs, fc)
 				obs = append(obs, fc.obligs...)
 			}
 		}
 	}
-	SolveAll(obs, *keep, *timeout, false)
+	tgen := time.Since(t0).Seconds()
+	SolveFns(fcs, nil, *keep, *timeout, false)
+	fmt.Printf("generated in %.1fs\n", tgen)
 	nok := 0
 	for _, o := range obs {
 		ok := o.result.Status == "unsat"
